@@ -17,7 +17,7 @@ func VerifC13_verify_equals_stdlib() {
 	c := c13Curve()
 	priv, err := GenerateKey(c, &c13Reader{failAt: 1000})
 	vAssume(err == nil)
-	hash := vBytesC("hash", 0, vBound("C13_diff_hash_len", 1, 3))
+	hash := vBytesC("hash", 0, vBound("C13_diff_hash_len", 1, 2))
 	var r, s *big.Int
 	class := "" // one assertion label per input class: each class gets its own native replay
 	if vBool("honest_signature") {
@@ -48,7 +48,7 @@ func VerifC13_verify_equals_stdlib() {
 		vAssume(rb[0] != 0 && sb[0] != 0)
 		r, s = new(big.Int).SetBytes(rb), new(big.Int).SetBytes(sb)
 	} else {
-		r, s = c13Int("r", vBound("C13_diff_int_len", 1, 2)), c13Int("s", vBound("C13_diff_int_len", 1, 2))
+		r, s = c13Int("r", vBound("C13_diff_int_len", 1, 1)), c13Int("s", vBound("C13_diff_int_len", 1, 1))
 	}
 	got := Verify(&priv.PublicKey, hash, r, s)
 	want := stdecdsa.Verify(&stdecdsa.PublicKey{Curve: c, X: priv.PublicKey.X, Y: priv.PublicKey.Y}, hash, r, s)
